@@ -179,7 +179,7 @@ def run(c, tier):
     for e in evs:
         if e["ev"] == "Accept" and e.get("evicted") and prev is not None:
             k = sum(1 for p in prev["st"]["peers"] if p["ty"] == "in" and not p["wl"])
-            for lim in big:
+            for lim in (9, 17):
                 if k >= lim:
                     big[lim] += 1
         if e["ev"] == "Restart" and prev is not None and len(prev["st"]["anchors"]) >= 2:
